@@ -11,6 +11,7 @@ import (
 	"sort"
 	"strings"
 	"sync"
+	"sync/atomic"
 	"time"
 
 	"github.com/Comcast/rulio/core"
@@ -91,7 +92,7 @@ type World struct {
 	Sys      *sys.System
 	HTTP     *service.HTTPService
 	Svc      *service.Service
-	nreq     int
+	nreq     int64
 	Cron     *RecCron
 	ICron    *cron.Cron
 	closers  []func()
@@ -362,12 +363,12 @@ func (w *World) Exec(op Op, sequential bool) (Res, map[string]interface{}) {
 		}
 	}
 	if w.HTTP != nil {
-		w.nreq++
+		nreq := int(atomic.AddInt64(&w.nreq, 1))
 		enc := w.Cfg.Encoding
 		if enc == "" || enc == "all" {
-			enc = Encodings[w.nreq%len(Encodings)]
+			enc = Encodings[nreq%len(Encodings)]
 		}
-		w.doHTTP(op, &res, enc, prefixes[(w.nreq/len(Encodings))%len(prefixes)])
+		w.doHTTP(op, &res, enc, prefixes[(nreq/len(Encodings))%len(prefixes)])
 		goto recorded
 	}
 	if w.Sys != nil {
